@@ -155,6 +155,14 @@ def run(ctx):
                             e3.add((sw.block, t))
             w = b.uncrossed_path([0], [c.block], edges=e1 | e2)
             r4.check(w is None, "ban@%s#%d" % (n.split("::")[-2] if n.endswith("}") else n.split("::")[-1], nb), "ban is reached only over the Err/Elapsed edge of server I/O", "ConnectionPool::ban can be reached without a server-side failure (a client's malformed message could ban a healthy server)", c.where(), w and b.describe_path(w))
+    # ... and those server-I/O errors are connection failures, not decode errors of content the client can influence:
+    # every Err return of Server::send / Server::recv marks the connection bad (I/O error or protocol desync)
+    import c02
+    members, reasons, _ = c02.compute_bad_on_err(F, r4)
+    for fn in ("pgcat::server::Server::send", "pgcat::server::Server::recv"):
+        why = "; ".join(w for w, _ in reasons.get(fn, [])[:2])
+        r4.check(fn in members, "err=connection-failure:" + fn.split("::")[-1], "%s returns Err only after marking the connection bad (socket / protocol failure)" % fn.split("::")[-1],
+                 "%s can return Err for a reason that is not a broken connection (%s): the caller then bans a healthy server because of message content a client can influence (e.g. bytes echoed in an ErrorResponse)" % (fn.split("::")[-1], why))
     r4.check(nb >= 3, "ban-sites", "%d ban call sites on the client path" % nb, "expected >= 3 ban sites on the client path, found %d" % nb)
     # ---------------- R5 client-sized allocations are bounded
     r5 = ctx.rule("C11-R5", "an allocation whose size derives from a 32/64-bit integer supplied by the client is preceded by a bound check on that integer", floor=4)
